@@ -446,15 +446,17 @@ def first_leaf(t, f):
     return in_term(t)
 
 
-def explore(t, facts, budget=400):
+def explore(t, facts, budget=400, seconds=None):
     """depth-first case analysis of the 0/1 (or difference) term t driven by its own value: a branch is
     abandoned as soon as the facts determine t.  Yields (facts, value) leaves; value is a constant, or a
     residual term when no further leaf can be split.  Raises Budget when more than `budget` nodes are needed."""
     nodes = [0]
+    import time as _time
+    t_end = (_time.time() + seconds) if seconds else None
 
     def rec(f, depth):
         nodes[0] += 1
-        if nodes[0] > budget:
+        if nodes[0] > budget or (t_end is not None and _time.time() > t_end):
             raise Budget()
         v = simplify(t, f)
         if v.is_const() or depth > 24:
@@ -481,11 +483,11 @@ def explore(t, facts, budget=400):
     yield from rec(f0, 0)
 
 
-def always(t, want, facts, budget=400):
+def always(t, want, facts, budget=400, seconds=None):
     """is the 0/1 term t == want in every consistent case?  -> (True, None) / (False, case) / (None, case)"""
     und = None
     try:
-        for f, v in explore(t, facts, budget):
+        for f, v in explore(t, facts, budget, seconds):
             if v.is_const():
                 if v.c != want:
                     return False, (f, v)
@@ -552,12 +554,19 @@ def rule_lengths(cx, rec, rule="K3"):
             for k, p in enumerate(pl.params):
                 if p.kind != "P":
                     obligations.append(("length of field %d" % k, fa[k][1], fb[k][1], "memcmp-run" if p.vt in EQ_BYTEWISE else "elementwise"))
+        if cx.quick and obligations:
+            # (quick tier: formulas with very many atoms are left to the thorough tier)
+            cnt = [0]
+            walk_atoms(r, lambda a: cnt.__setitem__(0, cnt[0] + 1))
+            if cnt[0] > 250:
+                rec.count("skipped_large_formula_in_quick")
+                continue
         for what, la, lb, path in obligations:
             f = base.copy()
             f.add(c_not(c_cmp("eq", la, lb)))
             if f.infeasible():
                 continue
-            ok, case = always(r, 0, f, budget=60)
+            ok, case = always(r, 0, f, budget=60, seconds=(3.0 if cx.quick else 60.0))
             if ok is None:
                 rec.count("undecided")
                 rec.note("%s %s %s: undecided (%s)" % (tu.cfg, rule, fn, show_case(case)[:300]))
